@@ -295,6 +295,20 @@ func Worker(shard, n int, tier string) *engine.Result {
 	scs := scenarios(tier)
 	res.Extra["scenarios"] = len(scs)
 	controls(f, res, shard)
+	// reverted / repeated self-destructs of a dirty contract (C05's family; here only its supply oracle)
+	{
+		sub := engine.NewResult(Prop)
+		c05.SdWorker(f, sub, tier, shard, n)
+		res.Transitions += sub.Transitions
+		res.Evaluations += sub.Evaluations
+		res.Counters["selfdestruct_family_programs"] += int64(sub.Transitions)
+		for _, v := range sub.Violations {
+			if strings.HasSuffix(v.Signature, "leak=supply") {
+				res.AddViolation(engine.Violation{Signature: "C02|method=none|control|effect=selfdestruct-family-supply", What: "a transaction with reverted / repeated self-destructs changed the supply by something else than what the destroyed contract still held",
+					Path: v.Path, Detail: v.Detail})
+			}
+		}
+	}
 	for i, sc := range scs {
 		if i%n != shard {
 			continue
